@@ -11,7 +11,7 @@ from ..kinds import reach
 from ..model import AnalysisError, unparse
 from ..report import RuleResult
 from ..textile import FormatDoc
-from ._c08_flow import Locals, NdvHome, call_name, eq_other_side, fold, is_isnan_of, is_nan, masked_stores
+from ._c08_flow import Locals, NdvHome, call_name, covers_more_than_nan, eq_other_side, fold, is_isnan_of, is_nan, masked_stores
 
 
 def f32(x: float) -> float:
@@ -463,36 +463,44 @@ def _array_names(L, data) -> set:
     return L.alias_class(d.id) if isinstance(d, ast.Name) else set()
 
 
-def _assumed(home, mod, L, names, test, _depth=0):
-    """Three-valued value of a condition for an entity that has a no-data code and an array (called one of `names`) that has NaNs:
-    `<ndv source> is None` is False, `np.isnan(X).any()` / `np.any(np.isnan(X))` is True, named conditions are looked through,
-    anything else is unknown (None)."""
-    if _depth > 6:
+def _three(L, test, leaf, _depth=0):
+    """Three-valued value of a condition given the value of its elementary parts (`leaf(expr)` -> True / False / None): not / and / or,
+    named conditions and walrus targets are looked through."""
+    if test is None or _depth > 6:
         return None
     if isinstance(test, ast.UnaryOp) and isinstance(test.op, ast.Not):
-        v = _assumed(home, mod, L, names, test.operand, _depth + 1)
+        v = _three(L, test.operand, leaf, _depth + 1)
         return None if v is None else not v
     if isinstance(test, ast.BoolOp):
-        vals = [_assumed(home, mod, L, names, v, _depth + 1) for v in test.values]
+        vals = [_three(L, v, leaf, _depth + 1) for v in test.values]
         if isinstance(test.op, ast.And):
             return False if any(v is False for v in vals) else (True if all(v is True for v in vals) else None)
         return True if any(v is True for v in vals) else (False if all(v is False for v in vals) else None)
-    if isinstance(test, ast.Compare) and len(test.ops) == 1 and isinstance(test.ops[0], (ast.Is, ast.IsNot)) \
-            and isinstance(test.comparators[0], ast.Constant) and test.comparators[0].value is None:
-        if _is_ndv_source(home, mod, L.expand(test.left)):
-            return isinstance(test.ops[0], ast.IsNot)
-        return None
-    if isinstance(test, ast.Call) and call_name(test) == "any":
-        inner = test.func.value if isinstance(test.func, ast.Attribute) and not test.args else (test.args[0] if len(test.args) == 1 else None)
-        if inner is not None and is_isnan_of(L.expand(inner, names), names):
-            return True
-        return None
     if isinstance(test, ast.Name):
         d = L.single(test.id)
-        return _assumed(home, mod, L, names, d, _depth + 1) if d is not None else None
+        return _three(L, d, leaf, _depth + 1) if d is not None else leaf(test)
     if isinstance(test, ast.NamedExpr):
-        return _assumed(home, mod, L, names, test.value, _depth + 1)
-    return None
+        return _three(L, test.value, leaf, _depth + 1)
+    return leaf(test)
+
+
+def _assumed(home, mod, L, names, test):
+    """Three-valued value of a condition for an entity that has a no-data code and an array (called one of `names`) that has NaNs:
+    `<ndv source> is None` is False, `np.isnan(X).any()` / `np.any(np.isnan(X))` is True, anything else is unknown (None)."""
+
+    def leaf(t):
+        if isinstance(t, ast.Compare) and len(t.ops) == 1 and isinstance(t.ops[0], (ast.Is, ast.IsNot)) \
+                and isinstance(t.comparators[0], ast.Constant) and t.comparators[0].value is None:
+            if _is_ndv_source(home, mod, L.expand(t.left)):
+                return isinstance(t.ops[0], ast.IsNot)
+            return None
+        if isinstance(t, ast.Call) and call_name(t) == "any":
+            inner = t.func.value if isinstance(t.func, ast.Attribute) and not t.args else (t.args[0] if len(t.args) == 1 else None)
+            if inner is not None and is_isnan_of(L.expand(inner, names), names):
+                return True
+        return None
+
+    return _three(L, test, leaf)
 
 
 def _reach_assuming(g, value, avoid=()):
@@ -528,6 +536,15 @@ def _nan_substitutions(L, fr, data):
     return subst, inline
 
 
+def _only_the_gaps(res, cls, member, fr, L, names):
+    """The substitution of gaps replaces the NaNs and nothing else: a mask (or `nan_to_num` with its default posinf / neginf) that also
+    selects infinities or other elements alters real values of the user."""
+    for s, x, m, _v in masked_stores(fr.node, L):
+        if (names is None or x in names) and covers_more_than_nan(m, L.alias_class(x)):
+            res.find(cls, member, "the NaN substitution also overwrites values that are not NaN", f"{fr.module.relpath}:{s.lineno}",
+                     "infinities (or other real values) are replaced together with the gaps: +/-inf no longer read back as written")
+
+
 def rule_ndvmap(ctx) -> RuleResult:
     res = RuleResult(
         "C08.NDVMAP",
@@ -550,6 +567,7 @@ def rule_ndvmap(ctx) -> RuleResult:
     for fr, c, data in numeric:
         L = Locals(fr.node)
         subst, inline = _nan_substitutions(L, fr, data)
+        _only_the_gaps(res, "H5Writer", "write_data_values", fr, L, _array_names(L, data))
         vals = [L.expand(v) for _s, v in subst] + ([L.expand(inline)] if inline is not None else [])
         ok = bool(vals) and all(_is_ndv_source(home, _mods(fr), v) for v in vals)
         res.inst(f"write_data_values: <array>[isnan] = {[unparse(v) for v in vals]} before create_dataset", nontrivial=True, ok=ok)
@@ -576,6 +594,7 @@ def rule_ndvmap(ctx) -> RuleResult:
     for fr, d in sinks or [(uc, None)]:
         L = Locals(fr.node)
         subst, inline = _nan_substitutions(L, fr, d)
+        _only_the_gaps(res, "H5Writer", "update_concatenated_field", fr, L, _array_names(L, d) if d is not None else None)
         subs += [(fr, L.expand(v)) for _s, v in subst] + ([(fr, L.expand(inline))] if inline is not None else [])
     ok = bool(subs) and all(home.which(_mods(fr), s) == "FLOAT_NDV" for fr, s in subs)
     res.inst(f"update_concatenated_field: values[isnan] = {[unparse(s) for _f, s in subs]}", nontrivial=True, ok=ok)
@@ -600,6 +619,7 @@ def rule_ndvmap(ctx) -> RuleResult:
     for fr in _with_private_callees(ctx, fv):
         L = Locals(fr.node)
         names = L.alias_class(fv.params[1]) if fr is fv else None  # in a helper that stayed a call: whichever array it fills
+        _only_the_gaps(res, "NumericData", "format_values", fr, L, names)
         subs += [(fr, L.expand(v)) for _s, x, m, v in masked_stores(fr.node, L) if (names is None or x in names) and is_isnan_of(m, L.alias_class(x))]
     ok = bool(subs) and all(_is_self_attr(fr, s, "nan_value") for fr, s in subs)
     res.inst(f"NumericData.format_values: values[isnan] = {[unparse(s) for _f, s in subs]}", ok=ok)
@@ -752,4 +772,51 @@ def rule_narrow(ctx) -> RuleResult:
     return res
 
 
-RULES = [rule_ndv, rule_ndvmap, rule_codec, rule_narrow]
+def rule_rewrite(ctx) -> RuleResult:
+    res = RuleResult(
+        "C08.REWRITE",
+        "C08",
+        "a writer method that stores new values under a dataset name replaces what the file holds: h5py's `require_dataset(name, .., data=)` "
+        "hands back an existing dataset untouched (data= is ignored), so it only writes when, on every path, the old dataset of that name was "
+        "deleted first",
+        floor=1,
+    )
+    p = ctx.p
+    W = p.cls("H5Writer")
+    for raw in list(W.methods.values()) + list(W.module.functions.values()):
+        if not any(isinstance(c, ast.Call) and call_name(c) in ("create_dataset", "require_dataset") for c in ast.walk(raw.node)):
+            continue
+        fr = _frame(ctx, raw)
+        L = Locals(fr.node)
+        req = [c for c in ast.walk(fr.node) if isinstance(c, ast.Call) and isinstance(c.func, ast.Attribute) and c.func.attr == "require_dataset"
+               and any(k.arg == "data" for k in c.keywords) and (c.args or any(k.arg == "name" for k in c.keywords))]
+        bad = []
+        g = CFG(fr.node) if req else None
+        for c in req:
+            key = L.text(c.args[0] if c.args else next(k.value for k in c.keywords if k.arg == "name"))
+            dels = {n for n in g.nodes if n.kind == "stmt" and (
+                (isinstance(n.ast, ast.Delete) and any(isinstance(t, ast.Subscript) and L.text(t.slice) == key for t in n.ast.targets))
+                or (isinstance(n.ast, ast.Expr) and isinstance(n.ast.value, ast.Call) and call_name(n.ast.value) == "pop" and n.ast.value.args and L.text(n.ast.value.args[0]) == key))}
+
+            def exists(t, key=key):  # the dataset of that name is on file
+                if isinstance(t, ast.Compare) and len(t.ops) == 1:
+                    if isinstance(t.ops[0], (ast.In, ast.NotIn)) and L.text(t.left) == key:
+                        return isinstance(t.ops[0], ast.In)
+                    if isinstance(t.ops[0], (ast.Is, ast.IsNot)) and isinstance(t.comparators[0], ast.Constant) and t.comparators[0].value is None:
+                        src = L.expand(t.left)
+                        if isinstance(src, ast.Call) and call_name(src) == "get" and src.args and L.text(src.args[0]) == key:
+                            return isinstance(t.ops[0], ast.IsNot)
+                return None
+
+            seen = _reach_assuming(g, lambda t: _three(L, t, exists), avoid=dels)
+            if any(n in seen for n in _cfg_nodes_of(g, c)):
+                bad.append(c)
+        res.inst(f"{raw.qualname}: {len(req)} require_dataset(data=) call(s), each behind the deletion of the old dataset", nontrivial=bool(req), ok=not bad)
+        for c in bad:
+            res.find("H5Writer", raw.name, "require_dataset(data=) reached with the old dataset still in place", f"{fr.module.relpath}:{c.lineno}",
+                     "when a dataset of that name (same shape and dtype) exists, require_dataset returns it as it is and ignores data=: the new values "
+                     "never reach the file and the old ones are read back")
+    return res
+
+
+RULES = [rule_ndv, rule_ndvmap, rule_codec, rule_narrow, rule_rewrite]
